@@ -55,11 +55,37 @@ def run(ctx):
     reach_conf = prog.reachable(["mokapot.confidence.assign_confidence"])
     # ---------------------------------------------------------------- a
     total_enum = 0
+
+    def helper_of_allowed(q, seen=()):
+        """is q only ever called (transitively) from accepted functions?"""
+        callers = {c.qual for c, _n, _k in prog.callers_of(q)}
+        if not callers or q in seen:
+            return None
+        owners = set()
+        for c in callers:
+            if c in ENUM_ALLOWED:
+                owners.add(c)
+            else:
+                up = helper_of_allowed(c, seen + (q,))
+                if up is None:
+                    return None
+                owners |= up
+        return owners
+
     for q in sorted(prog.funcs):
         f = prog.funcs[q]
         enums = fs_enumerations(prog, f)
         total_enum += len(enums)
+        owners = helper_of_allowed(q) if enums and q not in ENUM_ALLOWED \
+            and q not in reach_conf else None
         for call in enums:
+            if owners:
+                ctx.ok("C09a-no-enumeration", f,
+                       f"accepted enumeration {ast.unparse(call)[:60]}",
+                       "private helper of " + ", ".join(sorted(owners))
+                       + ": " + "; ".join(ENUM_ALLOWED[o] for o in
+                                          sorted(owners)))
+                continue
             if q in reach_conf:
                 ctx.fail("C09a-no-enumeration", f,
                          f"directory enumeration {ast.unparse(call)[:70]}",
